@@ -2032,3 +2032,8 @@ def _ptr_eq(E, ci, a, b):
     if isinstance(a, Slice) and isinstance(b, Slice):
         return a.buf is b.buf and a.a == b.a and a.b == b.b
     raise ModelGap('ptr::eq on ' + repr(a))
+
+
+@model('vec::from_elem')
+def _from_elem(E, ci, x, n):
+    return VecV([clone_val(E, x) for _ in range(E.concretize(n))], 'Vec')
